@@ -1,5 +1,5 @@
 """C07 - the terminal belongs to the foreground job while it runs, else to the shell."""
-from .. import flow, mir, plumb
+from .. import etag, flow, mir, plumb
 from ..mir import const_int, last_seg, render, strip_sites
 from .c02 import dom_facts
 
@@ -193,7 +193,7 @@ def handover_rule(ctx, crate):
     ctx.require(len(gives) >= 1, "R07-2", "R07-2|%s|give-anchor" % body.path,
                 "no give_terminal_to in run_single_program", body.path)
     for n, gb in enumerate(gives):
-        facts = dom_facts(body, gb)
+        facts = etag.derived_facts(body, [(strip_sites(a), v) for a, v in dom_facts(body, gb)], with_dom=True)
         names = {}
         for a, v in facts:
             p = mir.peel(a)
